@@ -43,7 +43,7 @@ def build():
     u.verify(A, "hash_external_account", "account", props=["C11"], fns={"hash_external_account": FnSpec(ret="r", rewrites=[SHA,
         ("T-MAP", r"(?P<v>\w+)\.extend\((?P<e>[^()]*\.as_bytes\(\))\)", r"\g<v>.extend_from_slice(\g<e>)", None)], sig="""
     ensures r@ == eab_fp(*ec), //@C11.fingerprints_cover_everything_they_stand_for
-""", at=[("before_tail", None, 1, "proof { assert(msg@ =~= ec.key@ + crate::utf8_bytes(ec.identifier@)); }")])})
+""")})
     GET = ("T-MAP", r"self\.endpoints\.get\(endpoint_name\)", "crate::shims::eps_get(&self.endpoints, endpoint_name)")
     GETM = ("T-MAP", r"self\.endpoints\.get_mut\(endpoint_name\)", "crate::shims::eps_get_mut(&mut self.endpoints, endpoint_name)")
     u.verify(A, "Account::get_endpoint", "account", props=["C11"], fns={"get_endpoint": FnSpec(ret="r", sig="""
@@ -287,7 +287,11 @@ impl Account {
 }
 // HashFunction::Sha256.hash(M)
 #[verifier::external_body]
-pub fn sha256_hash(m: &[u8]) -> (r: Vec<u8>) ensures r@ == sha256(m@) { unimplemented!() }
+pub fn sha256_hash(m: &[u8]) -> (r: Vec<u8>)
+    ensures r@ == sha256(m@),
+        // (the same for a message spelled as a concatenation: sequences that agree element by element are one sequence)
+        forall|a: Seq<u8>, b: Seq<u8>| m@ =~= a + b ==> r@ == #[trigger] sha256(a + b)
+{ unimplemented!() }
 impl KeyPair {
     #[verifier::external_body]
     pub fn public_key_to_pem(&self) -> (r: Result<Vec<u8>, Error>) ensures r matches Ok(v) ==> v@ == pub_pem(*self) { unimplemented!() }
